@@ -243,6 +243,47 @@ func main() {
 		emit(fmt.Sprintf("rr %d %d %s %d", ch, st, ints(ps), k), observe(k, ps, false, func() int { return rr.Balance(kafka.Message{}, ps...) }))
 	}
 
+	// RoundRobin with a partition list that CHANGES between calls (a Writer without a fixed Topic routes messages of
+	// topics of different widths through one balancer): lists grow and shrink, also in the middle of a chunk
+	nrv := 60
+	if thorough {
+		nrv = 1500
+	}
+	for i := 0; i < nrv; i++ {
+		ch := chunks[r.Intn(len(chunks))]
+		k := 2 + r.Intn(30)
+		ns := make([]int, k)
+		cur := 1 + r.Intn(8)
+		for j := range ns {
+			switch r.Intn(5) {
+			case 0:
+				cur = 1 + r.Intn(8)
+			case 1:
+				if cur > 1 {
+					cur = 1 + r.Intn(cur-1) // shrink
+				}
+			}
+			ns[j] = cur
+		}
+		rr := &kafka.RoundRobin{ChunkSize: ch}
+		res, panicked := []int{}, false
+		func() {
+			defer func() {
+				if recover() != nil {
+					panicked = true
+				}
+			}()
+			for _, n := range ns {
+				res = append(res, rr.Balance(kafka.Message{}, iota(n)...))
+			}
+		}()
+		o := ints(res)
+		if panicked {
+			o = ints(res) + ",panic"
+		}
+		emit(fmt.Sprintf("rrvar %d %s", ch, ints(ns)), o)
+	}
+
 	// LeastBytes: size sequences with a fixed list (unsorted lists too: the counters are sorted by id)
 	nlb := 80
 	if thorough {
